@@ -39,7 +39,7 @@ package header
 //@ ensures q != -1 ==> rest == s[len(s)-len(rest):]
 // a q-value is scanned to its last digit, however many there are: what is left over starts with a digit only when nothing but the leading 0 or 1 was taken
 //@ ensures [C07:alldigits] q != -1 && len(rest) > 0 && rest[0] >= '0' && rest[0] <= '9' ==> len(rest) == len(s) - 1 && (s[0] == '0' || s[0] == '1')
-//@ ensures [C07:range] q != -1 ==> q >= 0 && (s[0] == '1' ==> q >= 1) && (s[0] != '1' ==> q < 1)
+//@ ensures [C07:range] q != -1 ==> q >= 0 && (s[0] == '1' ==> q >= 1 && q < 2) && (s[0] != '1' ==> q < 1)
 //@ assigns \nothing
 //@ loop 0 invariant 0 <= i && i <= len(s)
 //@ loop 0 invariant 0 <= n && n < d && 1 <= d && d <= 10 * maxQualityDenominator
